@@ -130,6 +130,39 @@ MUTS = {
  "skip_shared_default": [(T, "            namespaces_dict[namespace._RENDER_CLS] = namespace\n",
      "            if namespace is not render_cls._ALL_DEFAULT_ARGS[namespace._RENDER_CLS]:\n"
      "                namespaces_dict[namespace._RENDER_CLS] = namespace\n")],
+ # the coordinator's seeded regression /verif/seeded/C16-u2: single-pass DataNamespace.update
+ "data_update_single_pass": [(T, """        if fields:
+            unknown = fields.keys() - type(self)._FIELDS.keys()
+            if unknown:
+                raise UnknownDataFieldError(
+                    f"Unknown render data field(s) {tuple(unknown)} for "
+                    f"{type(self)._RENDER_CLS.__name__!r}"
+                )
+
+            setattr_ = super().__setattr__
+            for field in fields.items():
+                setattr_(*field)
+""", """        setattr_ = super().__setattr__
+        unknown = []
+        for name, value in fields.items():
+            try:
+                setattr_(name, value)
+            except AttributeError:
+                unknown.append(name)
+        if unknown:
+            raise UnknownDataFieldError(
+                f"Unknown render data field(s) {tuple(unknown)} for "
+                f"{type(self)._RENDER_CLS.__name__!r}"
+            )
+""")],
+ "data_set_wrong_field": [(T, """            setattr_ = super().__setattr__
+            for field in fields.items():
+                setattr_(*field)
+""", """            setattr_ = super().__setattr__
+            for field in reversed(fields.items()):
+                setattr_(*field)
+                break
+""")],
  "nshash_no_cls": [(T, """        return hash(
             (
                 type(self)._RENDER_CLS,
